@@ -208,33 +208,39 @@ func checkC04(P *Program, r *Result, tier string) {
 				}
 			}
 			r.add("CURSOR", shortName(fn), "return", "the returned count of bytes was copied from buf[ri:ri+m] to bs[0:]", P.pos(instrPos(ret)), copied, "")
-			// err is r.err exactly when short
-			ev := ret.Results[1]
-			okErr := false
-			if ph, isPhi := ev.(*ssa.Phi); isPhi && len(ph.Edges) == 2 {
-				var ld ssa.Value
-				nils := 0
-				for _, e := range ph.Edges {
-					if isNilConst(e) {
-						nils++
-					} else if isLoadOfField(fn, e, "err") {
-						ld = e
-					}
+			// err is r.err exactly when short: every way of reaching the return either carries nil with m ≥ len(bs)
+			// or the stored error with m < len(bs)
+			okErr := true
+			ncase := 0
+			for _, rc := range retCases(fn) {
+				if rc.ret != ret {
+					continue
 				}
-				if nils == 1 && ld != nil {
-					// the load is reached only when len(bs) > m
-					blk := ld.(ssa.Instruction).Block()
-					okErr = fa.prove(ineqLT(m, bs.Len), blk, rootCtx)
-					// and the nil edge only when m ≥ len(bs)
-					for i, e := range ph.Edges {
-						if isNilConst(e) {
-							p := ph.Block().Preds[i]
-							ef := &edgeFacts{}
-							fa.edgeCond(p, ph.Block(), ef)
-							okErr = okErr && fa.prove(ineqGE(m, bs.Len), p, rootCtx.with(ef.ineq, ef.neq))
-						}
-					}
+				ncase++
+				ctx := rootCtx
+				blk := rc.at.Block()
+				if iff, isIf := rc.at.(*ssa.If); isIf && rc.pred >= 0 {
+					ef := &edgeFacts{}
+					fa.edgeCond(iff.Block(), ret.Block(), ef)
+					ctx = rootCtx.with(ef.ineq, ef.neq)
 				}
+				mv := fa.expand(rc.results[0])
+				ev := rc.results[1]
+				switch {
+				case isNilConst(ev):
+					if !fa.prove(ineqGE(mv, bs.Len), blk, ctx) {
+						okErr = false
+					}
+				case isLoadOfField(fn, ev, "err"):
+					if !fa.prove(ineqLT(mv, bs.Len), blk, ctx) {
+						okErr = false
+					}
+				default:
+					okErr = false
+				}
+			}
+			if ncase == 0 {
+				okErr = false
 			}
 			r.add("CLAMP", shortName(fn), "return", "error is r.err exactly when fewer than len(bs) bytes are reported", P.pos(instrPos(ret)), okErr, "")
 		}
